@@ -17,7 +17,7 @@ RULE = ('containers {KData (with KHeader, AcqInfo, AcqIdx, Rotation, SpatialDime
         'unchanged source are checked on the real objects. distinct = distinct (container, overload, dtype, copy, alias pattern)')
 ASSUMPTIONS = ['torch storage semantics (Tensor.to returns self when nothing changes) are the model parameter `resultId`', 'CPU only in this sandbox']
 CONTAINERS = ['KData', 'KTrajectory', 'IData', 'QData', 'CsmData', 'DcfData', 'KNoise', 'SpatialDimension', 'KHeader']  # Rotation is converted as a field (it is a torch Module, not a MoveDataMixin)
-OVERLOADS = ['to_dtype', 'to_dtype_kw', 'to_device', 'to_tensor', 'double', 'single', 'half', 'cpu', 'clone']
+OVERLOADS = ['to_dtype', 'to_dtype_kw', 'to_device', 'to_tensor', 'double', 'single', 'half', 'cpu', 'clone', 'apply_none', 'apply_identity', 'apply_inplace']
 DTYPES = {'float16': torch.float16, 'float32': torch.float32, 'float64': torch.float64, 'complex64': torch.complex64, 'complex128': torch.complex128}
 KIND = {torch.bool: ('bool', 8), torch.int16: ('int', 16), torch.int32: ('int', 32), torch.int64: ('int', 64), torch.uint8: ('int', 8), torch.float16: ('float', 16),
         torch.float32: ('float', 32), torch.float64: ('float', 64), torch.complex32: ('complex', 32), torch.complex64: ('complex', 64), torch.complex128: ('complex', 128)}
@@ -166,8 +166,20 @@ def run(case, drv) -> Outcome:
         f, target = (lambda: src.half(copy=copy)), torch.float16
     elif ov == 'cpu':
         f, target = (lambda: src.cpu(copy=copy)), None
+    elif ov == 'apply_none':  # apply() is documented as "returns a new object": the semantics of clone() followed by the function
+        f, target, copy = (lambda: src.apply(None)), None, True
+    elif ov == 'apply_identity':
+        f, target, copy = (lambda: src.apply(lambda x: x)), None, True
+    elif ov == 'apply_inplace':
+        # a function that works in place on what it is given (negates floating point tensors): the result is negated, the source is not
+        def _neg(x):
+            if isinstance(x, torch.Tensor) and not isinstance(x, torch.nn.Parameter) and (x.is_floating_point() or x.is_complex()):
+                x.neg_()
+            return x
+        f, target, copy = (lambda: src.apply(_neg)), None, True
     else:
         f, target, copy = (lambda: src.clone()), None, True
+    negated = ov == 'apply_inplace'
     st, new = call(f)
     if st != 'ok':
         return Outcome(key=('move-raises', cfg), viol={'signature': f'move:raises:{case["container"]}:{ov}', 'what': f'{cfg} raises {new}'}, branches=[f'raises:{ov}'])
@@ -212,7 +224,8 @@ def run(case, drv) -> Outcome:
         if k0 in ('int', 'bool') and t.dtype != d0:
             viol = viol or v('int-changed', f'{p}: integer/bool tensor changed dtype {d0} -> {t.dtype}')
         tol = 1e-2 if t.dtype in (torch.float16, torch.complex32) else 1e-6
-        if not torch.allclose(t.detach().to(val0.dtype if k0 in ('int', 'bool') else (torch.complex128 if k0 == 'complex' else torch.float64)),
+        tv = -t.detach() if negated and not isinstance(t, torch.nn.Parameter) and k0 in ('float', 'complex') else t.detach()
+        if not torch.allclose(tv.to(val0.dtype if k0 in ('int', 'bool') else (torch.complex128 if k0 == 'complex' else torch.float64)),
                               val0.to(torch.complex128 if k0 == 'complex' else (val0.dtype if k0 in ('int', 'bool') else torch.float64)), rtol=tol, atol=tol, equal_nan=True):
             viol = viol or v('values', f'{p}: values changed beyond the requested precision')
         if copy and t.numel() and t.untyped_storage().data_ptr() in src_ptrs:
